@@ -283,9 +283,8 @@ pub fn body(case: &Case, out: &Shared) {
                         let mut it = d.new_iterator(raindb::ReadOptions { fill_cache: fill_cache(), snapshot: None }).ok()?;
                         for k in keys.iter().take(12) {
                             for t in [k.clone(), { let mut a = k.clone(); a.push(0); a }] {
-                                if it.status().is_some() {
-                                    it = d.new_iterator(raindb::ReadOptions { fill_cache: fill_cache(), snapshot: None }).ok()?;
-                                }
+                                // the same iterator is used again after it reported an error: a new
+                                // positioning call starts afresh and must be right or report again
                                 if it.seek(&t).is_err() || it.status().is_some() {
                                     continue;
                                 }
